@@ -413,6 +413,9 @@ func possibleRead(set kset, v ObsVal) string {
 // memcached never gets wrong, and rend rightly acts on them (e.g. "L1 replace said not
 // found, so L1 does not hold the key"). Injecting them while the opposite is true would
 // simulate a lying backend, not a failing one. They occur truthfully in every other check.
+// The one exception is NOT_STORED in answer to a REPLACE (c10NotStoredOnReplace below):
+// memcached answers a replace of a missing key with NOT_FOUND and never with NOT_STORED,
+// so there it says nothing about the key and is a refusal like the others.
 var c10Statuses = []uint16{0x03, 0x04, 0x81, 0x82, 0x83, 0x84, 0x85, 0x86}
 
 func c10Faults(tier string, idx int) []kernel.Fault {
@@ -420,6 +423,13 @@ func c10Faults(tier string, idx int) []kernel.Fault {
 	for _, st := range c10Statuses {
 		fs = append(fs, kernel.Fault{Kind: "status", Tier: tier, Index: idx, Status: st})
 	}
+	fs = c10ClosingFaults(fs, tier, idx)
+	// last, so that the positions of the faults above stay what they were: the kernel lets
+	// this one fire only on a REPLACE / REPLACEQ request
+	return append(fs, kernel.Fault{Kind: "status", Tier: tier, Index: idx, Status: kernel.StatusNotStoredOnReplace})
+}
+
+func c10ClosingFaults(fs []kernel.Fault, tier string, idx int) []kernel.Fault {
 	for _, silent := range []bool{false, true} {
 		fs = append(fs, kernel.Fault{Kind: "close_before", Tier: tier, Index: idx, Silent: silent})
 		fs = append(fs, kernel.Fault{Kind: "close_applied", Tier: tier, Index: idx, Silent: silent})
@@ -666,7 +676,7 @@ func init() {
 	register(&Prop{
 		ID: "C10", Gen: genC10, Exec: execC10, Enumerate: enumC10, Level: "fault_enumeration",
 		Nontrivial: func(p Plan, r Result) bool { return !r.Trivial },
-		Rule:       "one backend fault per run, addressed by (tier, index of the backend request counted from the start of the victim's program, kind): each of the 8 memcached error statuses that are refusals rather than statements about the key (E2BIG, EINVAL, UNKNOWN_COMMAND, ENOMEM, NOT_SUPPORTED, INTERNAL, BUSY, TMPFAIL; NOT_FOUND / EXISTS / NOT_STORED occur only truthfully) with its text body, connection closed before the request is applied / after it is applied but before the reply / after n reply bytes (n in {1, 23, 24, 26, 28, 30, 60}) / after the reply, each with EPIPE or silent write mode (36 faults per position). Enumerated part: 22 text / 28 binary victim programs (one of them a multi-key get followed by a GETEQ batch closed by NOOP, run on the L1-only deployment with the direct handler, with and without the locking wrapper) (every command kind on present and absent keys, 3-chunk values, multi-key and quiet gets, 1-3 commands) x 6 deployments (L1-only / L1L2 / batch port x direct or chunked L1) x tier x request index 0..3 (0..9 on a chunked tier) x the 36 faults (thorough: all; quick: all 8 refusal statuses at every second position, a rotating sixth of them elsewhere, and a rotating sixth of the 28 connection faults; with the batch port the victim alternates between the ports); positions that the program never reaches count as trivial; a third of the two-tier cases (thorough: all) are repeated with the victim's keys evicted from L1 beforehand, half of those under the locking wrapper, so that reads back-fill L1 under the fault. Seeded part: drawn combinations, also under the locking wrapper, with evicted keys and with segmentation; one run in sixteen has the victim write a value of more than 1 MiB, which the simulated memcached truthfully refuses (too large), followed by a get and a set on the same connection. Oracle: victim gets a complete well-formed reply or its connection is closed (never quiescent with a request outstanding; a spinning goroutine is caught by the worker watchdog), an aborted connection has all its backend sockets closed, the bystander connection's replies equal the reference map's, and afterwards fresh connections read for every key only values allowed by a model in which unacknowledged writes may or may not have happened - never the value from before an acknowledged write or delete (read once as the tiers stand and once more with the keys evicted from L1, i.e. from L2 alone) - and can then overwrite every key (set / get answered STORED and the new value: nothing the faulted command held is still held). Non-trivial = the fault fired; distinct = distinct plan hash",
+		Rule:       "one backend fault per run, addressed by (tier, index of the backend request counted from the start of the victim's program, kind): each of the 8 memcached error statuses that are refusals rather than statements about the key (E2BIG, EINVAL, UNKNOWN_COMMAND, ENOMEM, NOT_SUPPORTED, INTERNAL, BUSY, TMPFAIL; NOT_FOUND / EXISTS / NOT_STORED otherwise occur only truthfully) with its text body, plus NOT_STORED where the addressed backend request is a REPLACE (memcached never answers a replace that way, so there it is a refusal too; on any other request the planned fault does not fire), connection closed before the request is applied / after it is applied but before the reply / after n reply bytes (n in {1, 23, 24, 26, 28, 30, 60}) / after the reply, each with EPIPE or silent write mode (37 faults per position). Enumerated part: 22 text / 28 binary victim programs (one of them a multi-key get followed by a GETEQ batch closed by NOOP, run on the L1-only deployment with the direct handler, with and without the locking wrapper) (every command kind on present and absent keys, 3-chunk values, multi-key and quiet gets, 1-3 commands) x 6 deployments (L1-only / L1L2 / batch port x direct or chunked L1) x tier x request index 0..3 (0..9 on a chunked tier) x the 37 faults (thorough: all; quick: all 8 refusal statuses at every second position, a rotating sixth of them elsewhere, and a rotating sixth of the 28 connection faults; with the batch port the victim alternates between the ports); positions that the program never reaches count as trivial; a third of the two-tier cases (thorough: all) are repeated with the victim's keys evicted from L1 beforehand, half of those under the locking wrapper, so that reads back-fill L1 under the fault. Seeded part: drawn combinations, also under the locking wrapper, with evicted keys and with segmentation; one run in sixteen has the victim write a value of more than 1 MiB, which the simulated memcached truthfully refuses (too large), followed by a get and a set on the same connection. Oracle: victim gets a complete well-formed reply or its connection is closed (never quiescent with a request outstanding; a spinning goroutine is caught by the worker watchdog), an aborted connection has all its backend sockets closed, the bystander connection's replies equal the reference map's, and afterwards fresh connections read for every key only values allowed by a model in which unacknowledged writes may or may not have happened - never the value from before an acknowledged write or delete (read once as the tiers stand and once more with the keys evicted from L1, i.e. from L2 alone) - and can then overwrite every key (set / get answered STORED and the new value: nothing the faulted command held is still held). Non-trivial = the fault fired; distinct = distinct plan hash",
 		Real:       append(append([]string{}, realFullStack...), "handlers/memcached/chunked", "server/utils.go abort"),
 		Stub:       stubFullStack,
 		FaultKinds: []string{"status", "close_before", "close_applied", "close_mid", "close_after"},
